@@ -3,7 +3,7 @@
 Require Extraction.
 Require Import ExtrOcamlBasic.
 From Coq Require Import Strings.Byte.
-From Sftp Require Import Base.GoSem Mode.FileMode Wire.Prim Wire.Packets Wire.ClientParse Srv.ReadOnly Srv.OpenFlags Srv.Negotiate Xfer.Transfer Xfer.FileOps Xfer.FileLock Xfer.OffsetLock Path.Clean Fs.Tree Proofs.TreeP Err.Status Srv.ReqServer Srv.Reply Srv.Shutdown Srv.Listing Lin.Linearize Srv.ServeLoop Srv.Handles Sched.PktMgr Sched.PktTrace Conn.WireMutex Conn.IdWrap Conn.ClientConn Conn.ConnTrace Sched.Alloc Sched.AllocTrace.
+From Sftp Require Import Base.GoSem Mode.FileMode Mode.LongName Wire.Prim Wire.Packets Wire.ClientParse Srv.ReadOnly Srv.OpenFlags Srv.Negotiate Xfer.Transfer Xfer.FileOps Xfer.FileLock Xfer.OffsetLock Path.Clean Fs.Tree Proofs.TreeP Err.Status Srv.ReqServer Srv.Reply Srv.Shutdown Srv.Listing Lin.Linearize Srv.ServeLoop Srv.Handles Sched.PktMgr Sched.PktTrace Conn.WireMutex Conn.IdWrap Conn.ClientConn Conn.ConnTrace Sched.Alloc Sched.AllocTrace.
 Extraction Language OCaml.
 Extraction "model.ml"
   Byte.of_bits Byte.to_bits
@@ -19,4 +19,5 @@ Extraction "model.ml"
   client_list scripted paged filelist_step
   lin_check serve serve_fixed hstep h0
   toPflags served_osflags frun accept_raw quiescent emitted arrived caccept_trace areplay_trace all_used available scan ids_from
-  FsTree.c_remove FsTree.c_mkdirall FsTree.c_removeall FsTree.spec_mkdirall FsTree.spec_removeall Reply.read_reply Reply.write_reply Reply.list_reply Reply.stat_reply Reply.readlink_reply Shutdown.shrun Shutdown.sh0 Shutdown.eager_schedule Shutdown.after_return OffsetLock.layout_ok FileLock.wire_scan FsTree.p_remove FsTree.p_rmdir FsTree.p_mkdir FsTree.lstat FsTree.stat FsTreeP.cnt.
+  FsTree.c_remove FsTree.c_mkdirall FsTree.c_removeall FsTree.spec_mkdirall FsTree.spec_removeall Reply.read_reply Reply.write_reply Reply.list_reply Reply.stat_reply Reply.readlink_reply Shutdown.shrun Shutdown.sh0 Shutdown.eager_schedule Shutdown.after_return OffsetLock.layout_ok FileLock.wire_scan FsTree.p_remove FsTree.p_rmdir FsTree.p_mkdir FsTree.lstat FsTree.stat FsTreeP.cnt
+  run_ls parse_ls six_months_before shows_year civil_from_days days_from_civil.
